@@ -266,6 +266,19 @@ theorem safe_fail (h : H) (cap n e : Int) (hn : 0 ≤ n) : Safe h cap n (fail h 
   refine ⟨?_, Int.le_refl _, hn, fun x => x, fun x => x, rfl, rfl⟩
   intro z hz; cases hz
 
+theorem wholeItems_bounds (c ch : Int) (hc : 0 ≤ c) (hch : 1 ≤ ch) : 0 ≤ wholeItems c ch ∧ wholeItems c ch ≤ c := by
+  unfold wholeItems
+  split
+  · exact ⟨hc, Int.le_refl _⟩
+  · have h0 : 0 ≤ Int.tmod c ch := Int.tmod_nonneg _ hc
+    have h1 : Int.tmod c ch ≤ c := by
+      rw [Int.tmod_eq_emod_of_nonneg hc]
+      have hd : 0 ≤ c / ch := Int.ediv_nonneg hc (by omega)
+      have hm : 0 ≤ ch * (c / ch) := Int.mul_nonneg (by omega) hd
+      have := Int.emod_add_mul_ediv c ch
+      omega
+    omega
+
 theorem safe_tail (h : H) (k : Kind) (n codecRet : Int)
     (hch : 1 ≤ h.ch) (hlt : h.rc < h.frames) (hc0 : 0 ≤ codecRet) (hc1 : codecRet ≤ capacity h k n) :
     Safe h (capacity h k n) n (readTail h k n codecRet) := by
@@ -279,10 +292,10 @@ theorem safe_tail (h : H) (k : Kind) (n codecRet : Int)
       omega
     refine ⟨(by intro z hz; cases hz), ?_, ?_, fun _ => hpos, fun h0 => (by show 0 ≤ h.rc + Int.tdiv codecRet h.ch; omega), rfl, rfl⟩
     · cases k
-      · exact hc0
+      · exact (wholeItems_bounds _ _ hc0 hch).1
       · exact hd0
     · cases k <;> simp only [capacity] at hc1 ⊢
-      · exact hc1
+      · exact Int.le_trans (wholeItems_bounds _ _ hc0 hch).2 hc1
       · exact tdiv_le_of_le_mul hc0 (by omega) hc1
   · rename_i hgt
     have hc2 : 0 ≤ (h.frames - h.rc) * h.ch := Int.mul_nonneg (by omega) (by omega)
@@ -293,10 +306,11 @@ theorem safe_tail (h : H) (k : Kind) (n codecRet : Int)
       simp only
       omega
     · cases k
-      · exact hc2
+      · exact (wholeItems_bounds _ _ hc2 hch).1
       · exact Int.tdiv_nonneg hc2 (by omega)
     · cases k <;> simp only [capacity] at hc1 ⊢
-      · omega
+      · have := (wholeItems_bounds _ _ hc2 hch).2
+        omega
       · exact tdiv_le_of_le_mul hc2 (by omega) (by omega)
 
 /-- every psf_memset the wrapper itself performs lies inside the caller's buffer, the return value is
